@@ -75,6 +75,11 @@ def cases(draw, tier="quick"):
     P["hs_fail"] = draw(st.sampled_from([[0, 0], [0, 0], [1, 0], [0, 1], [1, 2]]))
     P["hs_slow"] = draw(st.sampled_from([[False, False], [False, False], [True, False], [True, True]]))
     P["hs_fail_first"] = draw(st.sampled_from([[False, False], [False, False], [False, False], [True, False], [False, True]]))
+    # w.dilate() is a legal API call too: its dilate-N control records share the mailbox (and its faults)
+    P["dilate"] = draw(st.sampled_from([[False, False], [False, False], [False, False], [True, False], [False, True], [True, True]]))
+    if draw(st.integers(0, 3)) == 0:
+        slow = draw(st.integers(0, 1))
+        P["w_s2c"] = [1 if slow == 0 else 10, 1 if slow == 1 else 10]      # a slow reader: its inbound queue builds up
     n = draw(st.integers(0, 240))
     P["tape"] = draw(st.binary(min_size=n, max_size=n))
     return P
